@@ -512,6 +512,12 @@ def run_check(prop, suites, tier, seed, level_note, trusted_extra=(), replay=Non
             if getattr(suite, "names_rate", 0) or getattr(suite, "past_rate", 0):
                 import gen as _gen
                 cases = _gen.decorate_cases(cases, rng, getattr(suite, "names_rate", 0), getattr(suite, "past_rate", 0))
+            if getattr(suite, "seasoned_rate", 0):
+                # a share of the cases make the judged call on algorithm objects that have served before (algos.seasoned); the flags are
+                # drawn from a generator of their own so that the cases themselves do not depend on the rate
+                r2 = random.Random(f"{seed}:{suite.name}:seasoned")
+                cases = [dict(c, seasoned=True) if isinstance(c, dict) and "seasoned" not in c and r2.random() < suite.seasoned_rate else c
+                         for c in cases]
         all_cases = list(cases)
         nm_total = ns_total = ncases = ncrashed = ntimeouts_total = 0
         escalated = 0
@@ -626,6 +632,8 @@ def run_check(prop, suites, tier, seed, level_note, trusted_extra=(), replay=Non
         if replay is None and (getattr(suite, "names_rate", 0) or getattr(suite, "past_rate", 0)):
             per_suite[suite.name]["cases_with_hostile_names"] = sum(1 for c in all_cases if isinstance(c, dict) and "_names" in c)
             per_suite[suite.name]["cases_with_a_past"] = sum(1 for c in all_cases if isinstance(c, dict) and "_past" in c)
+        if replay is None and getattr(suite, "seasoned_rate", 0):
+            per_suite[suite.name]["cases_with_seasoned_algorithm_objects"] = sum(1 for c in all_cases if isinstance(c, dict) and c.get("seasoned"))
         if acc:
             stats[suite.name] = acc
     # ---- verdict
